@@ -32,7 +32,7 @@ import warnings
 from vf import core, corpus
 from vf import c08_inputs as ci
 
-DEPTH_LIMIT = 200          # AST depth from which a RecursionError is "nesting beyond the recursion limit"
+DEPTH_LIMIT = 200          # expression nesting from which a RecursionError is "nesting beyond the recursion limit"
 STORE_PER_MECH = 2         # violations kept per mechanism and worker part (instances are always counted)
 KEEP_PER_MECH = 6          # ... and per run (the smallest inputs)
 
@@ -477,11 +477,11 @@ class Mon(object):
     def recursion_outside(self, text, pos, L, ctx):
         """RecursionError: outside the domain when the (marked) text nests deeper than DEPTH_LIMIT"""
         for t in (ctx.files or {}).values():        # the other files of a generated project count too
-            d = ci.ast_depth(t)
+            d = ci.expr_depth(t)
             if d is not None and d >= DEPTH_LIMIT:
                 return True
         for t in ([ci.marked_text(text, pos, L)] if pos else []) + [text]:
-            d = ci.ast_depth(t, ctx.filename)
+            d = ci.expr_depth(t, ctx.filename)
             if d is not None:
                 return d >= DEPTH_LIMIT
         return False
@@ -958,7 +958,7 @@ def main(run):
     nh = 48
     hjobs = [['work_hostile', {'indexes': idx[k::nh], 'outside': k == 0}] for k in range(nh) if idx[k::nh]]
     fjobs = []
-    for fam, nchunks in (('targets', 32), ('del', 24), ('chars', 24), ('growth', 40), ('flat', 10 ** 6)):
+    for fam, nchunks in (('targets', 32), ('del', 24), ('chars', 24), ('growth', 40), ('calls', 48), ('chains', 26), ('flat', 10 ** 6)):
         cases = ci.family(fam, run.tier)
 
         def fcost(i, cases=cases):
@@ -1013,7 +1013,7 @@ def main(run):
         assumptions=['cursor positions are (1-based line, 0-based column) inside the text under the tokenizer line model '
                      '(lines end at \\n, \\r\\n, \\r only); positions outside the text are recorded, not judged',
                      'texts on which ast.parse itself raises something other than SyntaxError, and RecursionError on texts whose AST '
-                     'is deeper than %d levels, are outside the domain (counted)' % DEPTH_LIMIT,
+                     'nests EXPRESSIONS %d or more deep (statement nesting such as elif chains does not count), are outside the domain (counted)' % DEPTH_LIMIT,
                      'non-termination is bounded: a call is reported only after exceeding 8*B line events of supp code; a worker '
                      'watchdog firing is inconclusive, a worker death is a violation',
                      'one long-lived Project per worker chunk for real files (as the server keeps one); every unexpected exception '
